@@ -35,7 +35,8 @@ using namespace vf;
 namespace {
 
 // ------------------------------------------------------------------ arena: all blocks in ONE hash bucket
-constexpr size_t STRIDE = 73 * 64;
+constexpr size_t HASH_PRIME = MemoryLeakDetectorTable::hash_prime;       // the library's own bucket count: slots spaced by a multiple of it share a bucket
+constexpr size_t STRIDE = HASH_PRIME * 64;
 constexpr int NSLOTS = 96;
 alignas(64) char g_arena[STRIDE * (NSLOTS + 2)];
 char* g_base;
@@ -344,7 +345,7 @@ int main(int argc, char** argv) {
     }
     global_mutex = g_detector_mutex;
     if (!global_mutex) vf::harness_error("global detector mutex is not the modelled one");
-    { size_t b = (size_t)g_arena; b = (b + 63) & ~(size_t)63; while (b % 73) b += 64; g_base = (char*)b; }
+    { size_t b = (size_t)g_arena; b = (b + 63) & ~(size_t)63; while (b % HASH_PRIME) b += 64; g_base = (char*)b; }
     bool T = vf::thorough();
     vf::info("rule", "every schedule (choice of the next enabled thread at each modelled-mutex operation and at each unprotected detector access) of real threads running allocation scripts through the thread-safe wrappers, up to the preemption bound; all blocks forced into one hash bucket; non-trivial = schedule with >= 1 preemption");
     struct Cfg { const char* name; int threads, scripts, bound; bool inside; bool misuse; };
